@@ -41,9 +41,28 @@ def main(argv):
                     gp = gp * 1000 + gi
                     out = os.path.join(sc.dir, "st-%s-%d-%d.jsonl" % (prop, seed, gp))
                     outs.append((seed, gp, out))
-                    procs.append(run_range(sc, prop, seed, 0, n, gp, out))
+                    if gi == 1:
+                        # this process starts in the middle: a run must not depend on what the
+                        # process has executed before it (the second half is run by another one)
+                        procs.append(run_range(sc, prop, seed, n // 2, n, gp, out))
+                        procs.append(run_range(sc, prop, seed, 0, n // 2, gp, out + ".b"))
+                    else:
+                        procs.append(run_range(sc, prop, seed, 0, n, gp, out))
             for p in procs:
                 p.wait()
+            for (s_, gp_, o_) in outs:
+                if os.path.exists(o_ + ".b"):
+                    with open(o_, "a") as f:
+                        f.write(open(o_ + ".b").read())
+            # a plan is a pure function of (property, tier, seed, index): generated twice, in two processes
+            gens = []
+            for k in range(2):
+                g = subprocess.run([sc.bin, "-test.run", "TestWorker", "-mode", "gen", "-prop", prop, "-seed", "1", "-from", "0", "-to", str(n)], capture_output=True, text=True)
+                gens.append([l for l in g.stdout.splitlines() if l.startswith("{")])
+            if gens[0] != gens[1] or not gens[0]:
+                bad += 1
+                d = [i for i, (x, y) in enumerate(zip(gens[0], gens[1])) if x != y]
+                print("NONDETERMINISTIC %s: plan generation differs between two processes, first at index %s" % (prop, d[:3]))
             for seed in (1, 2):
                 ds = [(gp, digest(o)) for (s, gp, o) in outs if s == seed]
                 base = ds[0][1]
